@@ -188,6 +188,9 @@ def funcs(i):
     return _FUNCS[i]
 
 
+UNEXPECTED = []
+
+
 def call(fn, *a, **kw):
     """run a root finder; encode the outcome as (code, root, funcalls, iterations, converged)"""
     try:
@@ -199,6 +202,9 @@ def call(fn, *a, **kw):
         return (3, 0.0, 0, 0, False)
     except ZeroDivisionError:      # Numba's Python error model: float division by 0.0 raises
         return (4, 0.0, 0, 0, False)
+    except Exception as e:         # anything else on a valid call is an oracle failure, not a harness crash
+        UNEXPECTED.append(repr(e)[:300])
+        return (9, 0.0, 0, 0, False)
 
 
 def fl(x):
@@ -341,13 +347,13 @@ def run(ctx):
     # ================================================================ bisect / brentq
     # "underflow" stream: function values so small that products of two of them underflow to (-)0.0 (the sign tests
     # of the pinned code were products: finding repaired by /repo commit 8b50f2a; reported again if it returns)
-    streams = [("main", 4000 if thorough else 260), ("underflow", 500 if thorough else 40)]
+    streams = [("main", 4000 if thorough else 210), ("underflow", 500 if thorough else 40)]
     for solver_name in ("bisect", "brentq"):
         solver = getattr(RF, solver_name)
         cases, meta = [], []
         # "abs_tie" stream (brentq): |f(a)| == |f(b)| exactly with a full-mantissa slope, so that the secant step equals the
         # bisection step up to one rounding: separates `abs(fcur) < abs(fpre)` from `<=` (which is otherwise equivalent)
-        for stream, count in streams + ([("abs_tie", 1500 if thorough else 300)] if solver_name == "brentq" else []):
+        for stream, count in streams + ([("abs_tie", 1500 if thorough else 220)] if solver_name == "brentq" else []):
             for _ in range(count):
                 if stream == "abs_tie":
                     F0 = funcs(0)[0]
@@ -538,7 +544,7 @@ def run(ctx):
 
     for kind in ("newton", "halley", "secant"):
         cases, meta = [], []
-        for _ in range(3000 if thorough else 220):
+        for _ in range(3000 if thorough else 180):
             mode = rng.choice(["basin", "basin", "basin", "random", "flat", "exactroot", "fewiter", "special_start", "special_start"])
             s = rng.choice([1.0, -1.0]) * pow2(rng, -2, 2)
             r1 = rng.randrange(-48, 49) / 8.0
@@ -624,7 +630,7 @@ def run(ctx):
     # ================================================================ brent_max
     sqrt_eps = float(np.sqrt(2.2e-16)); golden = float(0.5 * (3.0 - np.sqrt(5.0)))
     cases, meta = [], []
-    for _ in range(4000 if thorough else 300):
+    for _ in range(4000 if thorough else 220):
         mode = rng.choice(["interior", "interior", "interior", "boundary", "linear", "quartic", "mixed", "bump", "badargs"])
         fam = 5
         m = rng.randrange(-80, 81) / 16.0
@@ -713,7 +719,7 @@ def run(ctx):
         "      match nf' with PInf => isinf | Fin v => negb isinf && PrimFloat.eqb v nf end\n"
         "  | NMErr => Z.eqb code 1%Z | NMFuel => false end.\n")
     cases, meta = [], []
-    nm_count = 800 if thorough else 60
+    nm_count = 800 if thorough else 50
     for case_no in range(nm_count + 3):
         n = rng.randrange(1, 4)
         L = np.array([[rng.randrange(-4, 5) / 4.0 if j < i else (rng.randrange(2, 9) / 4.0 if j == i else 0.0)
@@ -856,6 +862,141 @@ def run(ctx):
     for i_ in bad:
         inp, out = meta[i_]
         ctx.mismatch("C17.Model.nelder_mead (PrimFloat instance) vs nelder_mead.nelder_mead", inp, out)
+
+    # ================================================================ hardening audit: dress, optional arguments, boundaries,
+    # non-mutation, interleaving, exceptions (classes 1-6 of the audit; class 2 "state" does not apply: no objects with state)
+    from numba.core.errors import TypingError
+    _t_h = time.time()
+
+    def hcall(fn, *a, **kw):
+        """('ok', canonical tuple) | ('err', exception class name) for the documented raises | ('unsupported', ..) when Numba cannot
+        type the argument (expected on the unchanged tree) | ('exc', repr) for anything else"""
+        try:
+            r = fn(*a, **kw)
+            if hasattr(r, "final_simplex"):
+                return ("ok", (np.asarray(r.x, dtype=float).tolist(), float(r.fun), bool(r.success), int(r.nit),
+                               np.asarray(r.final_simplex, dtype=float).tolist()))
+            if hasattr(r, "root"):
+                return ("ok", (float(r.root), int(r.function_calls), int(r.iterations), bool(r.converged)))
+            return ("ok", (float(r[0]), float(r[1]), int(r[2][0]), int(r[2][1])))
+        except (ValueError, RuntimeError, ZeroDivisionError) as e:
+            return ("err", type(e).__name__)
+        except TypingError:
+            return ("unsupported", "TypingError")
+        except TypeError as e:
+            return ("unsupported", "TypeError") if "reflect" in str(e) or "type" in str(e).lower() else ("exc", repr(e)[:200])
+        except Exception as e:
+            return ("exc", repr(e)[:200])
+
+    def hcheck(cls, label, canon, got, inp):
+        ctx.case(("harden", cls, label, json.dumps(jsonable(inp), sort_keys=True)), nontrivial=(got[0] == "ok"))
+        ctx.count("%s:%s%s" % (cls, label, "" if got[0] == "ok" else ":" + got[0]))
+        if got[0] == "exc":
+            ctx.fail("unexpected_exception", "exception on a valid call (%s %s): %s" % (cls, label, got[1]), inp, got, canon)
+        elif got[0] == "unsupported":
+            pass                                      # Numba cannot type this argument: expected error, not a failure
+        elif got != canon:
+            ctx.fail("harden_result_differs", "%s %s: result differs from the canonical float64/int call" % (cls, label), inp, got, canon)
+
+    F2, J2 = funcs(2); F3, J3 = funcs(3); F4, J4 = funcs(4); F5, J5 = funcs(5)
+    ps = (-5.0, -2.0, 0.0, 1.0)                       # x^3 - 2x - 5, root 2.0945...
+    scal_int = [("int", int), ("np.int64", np.int64), ("np.int32", np.int32), ("np.intp", np.intp), ("np.uint8", np.uint8)]
+    scal_flt = [("float", float), ("np.float64", np.float64), ("np.float32", np.float32)]
+    pick = (lambda l, k: l) if thorough else (lambda l, k: [l[(ctx.seed + k) % len(l)]])
+    for sname, solver in (("bisect", RF.bisect), ("brentq", RF.brentq)):
+        canon = hcall(solver, J2, 2.0, 3.0, args=ps)
+        for lab, cv in pick(scal_int + scal_flt, 0):
+            hcheck("dress", "%s:a,b=%s" % (sname, lab), canon, hcall(solver, J2, cv(2), cv(3), args=ps), {"solver": sname, "a": 2, "b": 3, "dress": lab})
+        for lab, cv in pick(scal_int, 1):
+            hcheck("dress", "%s:maxiter=%s" % (sname, lab), canon, hcall(solver, J2, 2.0, 3.0, args=ps, maxiter=cv(100)), {"solver": sname, "maxiter": lab})
+            hcheck("dress", "%s:args=%s" % (sname, lab), canon, hcall(solver, J2, 2.0, 3.0, args=tuple(cv(int(abs(v))) * (1 if v >= 0 else -1) if lab != "np.uint8" else float(v) for v in ps)),
+                   {"solver": sname, "args": lab})
+        c32 = hcall(solver, J2, 2.0, 3.0, args=ps, xtol=float(np.float32(1e-6)), rtol=float(np.float32(1e-9)))
+        hcheck("dress", "%s:xtol,rtol=np.float32" % sname, c32, hcall(solver, J2, 2.0, 3.0, args=ps, xtol=np.float32(1e-6), rtol=np.float32(1e-9)), {"solver": sname, "xtol": "float32"})
+        hcheck("dress", "%s:args=np.float32" % sname, canon, hcall(solver, J2, 2.0, 3.0, args=tuple(np.float32(v) for v in ps)), {"solver": sname, "args": "float32"})
+        # optional arguments: omitted == explicit defaults == disp variants (a converging call)
+        hcheck("optional", "%s:explicit-defaults" % sname, canon, hcall(solver, J2, 2.0, 3.0, args=ps, xtol=RF._xtol, rtol=RF._rtol, maxiter=RF._iter, disp=True), {"solver": sname})
+        hcheck("optional", "%s:disp=False" % sname, canon, hcall(solver, J2, 2.0, 3.0, args=ps, disp=False), {"solver": sname, "disp": False})
+        hcheck("optional", "%s:rtol=0.0(falsy)" % sname, hcall(solver, J2, 2.0, 3.0, args=ps, xtol=1e-3, rtol=1e-300),
+               hcall(solver, J2, 2.0, 3.0, args=ps, xtol=1e-3, rtol=0.0), {"solver": sname, "rtol": 0.0, "xtol": 1e-3})
+        # boundaries: maxiter = 1 with disp False/True, zero-width bracket at a root / not at a root, root at an end point
+        hcheck("boundary", "%s:maxiter=1,disp=False" % sname, ("ok", (0.0, 3 if sname == "bisect" else 3, 0, False)) if False else hcall(solver, J2, 2.0, 3.0, args=ps, maxiter=1, disp=False),
+               hcall(solver, J2, 2, 3, args=ps, maxiter=np.int64(1), disp=False), {"solver": sname, "maxiter": 1})
+        hcheck("boundary", "%s:maxiter=1,disp=True->RuntimeError" % sname, ("err", "RuntimeError"), hcall(solver, J2, 2.0, 3.0, args=ps, maxiter=1), {"solver": sname, "maxiter": 1, "disp": True})
+        hcheck("boundary", "%s:a==b not a root->ValueError" % sname, ("err", "ValueError"), hcall(solver, J2, 2.0, 2.0, args=ps), {"solver": sname, "a": 2.0, "b": 2.0})
+        hcheck("boundary", "%s:a==b at a root" % sname, ("ok", (1.0, 2, 0, True)), hcall(solver, J2, 1.0, 1.0, args=(-1.0, 0.0, 0.0, 1.0)), {"solver": sname, "a": 1.0, "b": 1.0, "params": [-1, 0, 0, 1]})
+        hcheck("boundary", "%s:xtol=0->ValueError" % sname, ("err", "ValueError"), hcall(solver, J2, 2.0, 3.0, args=ps, xtol=0), {"solver": sname, "xtol": 0})
+        # interleaving: problem A, problem B, problem A again
+        a1 = hcall(solver, J2, 2.0, 3.0, args=ps); hcall(solver, funcs(1)[1], -1.0, 2.5, args=(1.0, 50.0, -50.0, 1.0)); a2 = hcall(solver, J2, 2.0, 3.0, args=ps)
+        hcheck("seq", "%s:A,B,A" % sname, a1, a2, {"solver": sname})
+    newt = (("newton", lambda x0, **k: RF.newton(J2, x0, J3, args=ps, **k)), ("newton_halley", lambda x0, **k: RF.newton_halley(J2, x0, J3, J4, args=ps, **k)),
+            ("newton_secant", lambda x0, **k: RF.newton_secant(J2, x0, args=ps, **k)))
+    for sname, run_ in newt:
+        canon = hcall(run_, 2.0)
+        for lab, cv in pick(scal_int + scal_flt, 2):
+            hcheck("dress", "%s:x0=%s" % (sname, lab), canon, hcall(run_, cv(2)), {"solver": sname, "x0": 2, "dress": lab})
+        for lab, cv in pick(scal_int, 3):
+            hcheck("dress", "%s:maxiter=%s" % (sname, lab), canon, hcall(run_, 2.0, maxiter=cv(50)), {"solver": sname, "maxiter": lab})
+        hcheck("dress", "%s:tol=np.float32" % sname, hcall(run_, 2.0, tol=float(np.float32(1e-6))), hcall(run_, 2.0, tol=np.float32(1e-6)), {"solver": sname, "tol": "float32"})
+        hcheck("optional", "%s:explicit-defaults" % sname, canon, hcall(run_, 2.0, tol=1.48e-8, maxiter=50, disp=True), {"solver": sname})
+        hcheck("optional", "%s:disp=False" % sname, canon, hcall(run_, 2.0, disp=False), {"solver": sname})
+        hcheck("boundary", "%s:maxiter=1,disp=True->RuntimeError" % sname, ("err", "RuntimeError"), hcall(run_, 2.0, maxiter=1), {"solver": sname, "maxiter": 1})
+        hcheck("boundary", "%s:tol=0->ValueError" % sname, ("err", "ValueError"), hcall(run_, 2.0, tol=0), {"solver": sname, "tol": 0})
+        hcheck("boundary", "%s:maxiter=0->ValueError" % sname, ("err", "ValueError"), hcall(run_, 2.0, maxiter=0), {"solver": sname, "maxiter": 0})
+        hcheck("seq", "%s:A,B,A" % sname, canon, (hcall(run_, 3.0), hcall(run_, 2.0))[1], {"solver": sname})
+    bps = (1.0, 2.0, 0.0, 0.0, 0.0)                    # -(2 (x-1)) (x-1)
+    canon = hcall(brent_max, J5, 0.0, 3.0, args=bps)
+    for lab, cv in pick(scal_int + scal_flt, 4):
+        hcheck("dress", "brent_max:a,b=%s" % lab, canon, hcall(brent_max, J5, cv(0), cv(3), args=bps), {"solver": "brent_max", "a": 0, "b": 3, "dress": lab})
+    for lab, cv in pick(scal_int, 5):
+        hcheck("dress", "brent_max:maxiter=%s" % lab, canon, hcall(brent_max, J5, 0.0, 3.0, args=bps, maxiter=cv(500)), {"solver": "brent_max", "maxiter": lab})
+    hcheck("dress", "brent_max:xtol=np.float32", hcall(brent_max, J5, 0.0, 3.0, args=bps, xtol=float(np.float32(1e-4))),
+           hcall(brent_max, J5, 0.0, 3.0, args=bps, xtol=np.float32(1e-4)), {"solver": "brent_max", "xtol": "float32"})
+    hcheck("optional", "brent_max:explicit-defaults", canon, hcall(brent_max, J5, 0.0, 3.0, args=bps, xtol=1e-5, maxiter=500), {"solver": "brent_max"})
+    hcheck("boundary", "brent_max:a==b->ValueError", ("err", "ValueError"), hcall(brent_max, J5, 1.0, 1.0, args=bps), {"solver": "brent_max", "a": 1.0, "b": 1.0})
+    hcheck("boundary", "brent_max:maxiter=0", hcall(brent_max, J5, 0.0, 3.0, args=bps, maxiter=1), hcall(brent_max, J5, 0.0, 3.0, args=bps, maxiter=0), {"solver": "brent_max", "maxiter": 0})
+    # ---- nelder_mead (every new argument type costs a Numba compilation of the whole routine: few types in the quick tier)
+    ctx.notes.append("hardening: scalar routines %.1fs" % (time.time() - _t_h))
+    Fq, Jq = vfuncs(11)
+    qps = (1.0, -2.0, 0.5, 2.0, 1.0, 3.0)             # 0.5 - (2 d0 d0 + d0 d1 + 3 d1 d1), d = x - (1,-2)
+    x0c = np.array([3.0, 1.0]); bc = np.column_stack([np.array([-4.0, -6.0]), np.array([5.0, 4.0])])   # same layout as the main stream: no recompilation
+    canon = hcall(nelder_mead, Jq, x0c.copy(), args=qps, max_iter=1000)   # every distinct set of supplied keywords is a Numba compilation
+    hcheck("optional", "nelder_mead:max_iter omitted", canon, hcall(nelder_mead, Jq, x0c.copy(), args=qps), {"solver": "nelder_mead", "max_iter": "omitted"})
+    canon_b = hcall(nelder_mead, Jq, x0c.copy(), bounds=bc.copy(), args=qps, max_iter=1000)
+    x0s, bs = x0c.copy(), bc.copy()
+    r1 = nelder_mead(Jq, x0s, bounds=bs, args=qps, max_iter=1000); r2 = nelder_mead(Jq, x0s, bounds=bs, args=qps, max_iter=1000)
+    ctx.case(("harden", "alias", "nelder_mead"), nontrivial=True); ctx.count("alias:nelder_mead:x0,bounds unchanged; results not aliased")
+    if not (np.array_equal(x0s, x0c) and np.array_equal(bs, bc)):
+        ctx.fail("argument_mutated", "nelder_mead changed x0 or bounds", {"solver": "nelder_mead", "x0": x0c.tolist()}, [x0s.tolist(), bs.tolist()], None)
+    if np.shares_memory(r1.x, x0s) or np.shares_memory(r1.x, r2.x) or np.shares_memory(r1.final_simplex, r2.final_simplex) or not np.array_equal(r1.x, r2.x):
+        ctx.fail("result_aliased", "nelder_mead results alias the input / each other or differ between identical calls", {"solver": "nelder_mead"}, None, None)
+    hcheck("optional", "nelder_mead:explicit-defaults", canon, hcall(nelder_mead, Jq, x0c.copy(), args=qps, tol_f=1e-10, tol_x=1e-10, max_iter=1000), {"solver": "nelder_mead"})
+    if thorough:
+        hcheck("optional", "nelder_mead:bounds=explicit empty (0,2) array", canon, hcall(nelder_mead, Jq, x0c.copy(), bounds=np.array([[], []]).T, args=qps), {"solver": "nelder_mead", "bounds": "empty"})
+    g0 = hcall(nelder_mead, Jq, x0c.copy(), args=qps, tol_f=0.0, tol_x=0.0, max_iter=300)
+    ctx.case(("harden", "optional", "nelder_mead tol=0"), nontrivial=True); ctx.count("optional:nelder_mead:tol_f=tol_x=0.0(falsy)")
+    if g0[0] != "ok" or g0[1][3] != 300 or g0[1][2]:
+        ctx.fail("falsy_tolerance_replaced", "nelder_mead with tol_f=tol_x=0.0, max_iter=300 on a strictly concave quadratic must run 300 passes (the default tolerances stop after about 100) and report success=False",
+                 {"solver": "nelder_mead", "tol_f": 0.0, "tol_x": 0.0, "max_iter": 300}, g0, None)
+    hcheck("boundary", "nelder_mead:max_iter=0", ("ok", (x0c.tolist(), float(Fq(x0c, *qps)), False, 0)), tuple([hcall(nelder_mead, Jq, x0c.copy(), args=qps, max_iter=0)[0]]) +
+           (hcall(nelder_mead, Jq, x0c.copy(), args=qps, max_iter=0)[1][:4],), {"solver": "nelder_mead", "max_iter": 0})
+    ctx.notes.append("hardening: nelder_mead before dress %.1fs" % (time.time() - _t_h))
+    hcheck("dress", "nelder_mead:x0=list", canon, hcall(nelder_mead, Jq, [3.0, 1.0], args=qps, max_iter=1000), {"solver": "nelder_mead", "x0": "list"})
+    hcheck("dress", "nelder_mead:x0=int64 array,bounds=int64 array", canon_b, hcall(nelder_mead, Jq, np.array([3, 1]), bounds=np.array([[-4, 5], [-6, 4]]), args=qps, max_iter=1000),
+           {"solver": "nelder_mead", "x0": "int64 array", "bounds": "int64 array"})
+    if thorough:
+        hcheck("dress", "nelder_mead:x0=float32 array", canon, hcall(nelder_mead, Jq, np.array([3, 1], dtype=np.float32), args=qps), {"solver": "nelder_mead", "x0": "float32"})
+        hcheck("dress", "nelder_mead:x0=non-contiguous view", canon, hcall(nelder_mead, Jq, np.array([[3.0, 9.0], [1.0, 9.0]])[:, 0], args=qps), {"solver": "nelder_mead", "x0": "view"})
+        hcheck("dress", "nelder_mead:bounds=F-ordered", canon_b, hcall(nelder_mead, Jq, x0c.copy(), bounds=np.asfortranarray(bc), args=qps), {"solver": "nelder_mead", "bounds": "F"})
+        hcheck("dress", "nelder_mead:bounds=list", canon_b, hcall(nelder_mead, Jq, x0c.copy(), bounds=[[-4.0, 5.0], [-6.0, 4.0]], args=qps), {"solver": "nelder_mead", "bounds": "list"})
+        hcheck("dress", "nelder_mead:max_iter=np.int32", canon, hcall(nelder_mead, Jq, x0c.copy(), args=qps, max_iter=np.int32(1000)), {"solver": "nelder_mead", "max_iter": "int32"})
+        hcheck("dress", "nelder_mead:args=int", hcall(nelder_mead, Jq, x0c.copy(), args=(1.0, -2.0, 1.0, 2.0, 1.0, 3.0)), hcall(nelder_mead, Jq, x0c.copy(), args=(1, -2, 1, 2, 1, 3)), {"solver": "nelder_mead", "args": "int"})
+    hcheck("seq", "nelder_mead:A,B,A", canon, (hcall(nelder_mead, Jq, np.array([0.0, 0.0]), args=qps, max_iter=1000), hcall(nelder_mead, Jq, x0c.copy(), args=qps, max_iter=1000))[1], {"solver": "nelder_mead"})
+    # exceptions captured by call() anywhere above
+    for msg in UNEXPECTED[:20]:
+        ctx.fail("unexpected_exception", "exception on a generated call: " + msg, {"exception": msg}, msg, None)
+    ctx.count("exceptions:unexpected", len(UNEXPECTED)) if UNEXPECTED else None
+    ctx.notes.append("hardening section wall time %.1fs" % (time.time() - _t_h))
 
 
 def F_(x):
